@@ -132,4 +132,12 @@ theorem C13_leave_order_necessary :
     ∧ (recover false (FS.applyAll {} (life Order.id false 262 {} (orderWitnessPre ++ [Ev.leave]) 1).2)).alive = [] := by
   decide +kernel
 
+/-- **A stale compaction temp file is ignored while the snapshot exists**: whatever an earlier failed
+compaction left in `<path>.compact` (`t`), a restart on a directory that still has the snapshot opens and
+recovers exactly as if the temp file were not there — so the leave marker in the snapshot cannot be overridden
+by an older compacted copy without it. -/
+theorem C13_stale_tmp_ignored (rj : Bool) (mc : Nat) (fs : FS) (t : Option Bytes) (d : Bytes) (hd : fs.main = some d) :
+    Snap.openOn rj mc { fs with tmp := t } = Snap.openOn rj mc fs ∧ recover rj { fs with tmp := t } = recover rj fs := by
+  simp [Snap.openOn, recover, hd]
+
 end SerfProofs.C13
